@@ -22,4 +22,8 @@ ENTRIES = {
     text="Seeded Hypothesis search over point-set pairs in classes generic/planar/nearly collinear/mirrored/exactly degenerate, magnitudes 1e-3..1e6 with UTM offsets, noise 0..100%, with and without scale: properness, least-squares optimality against Horn's quaternion solution (exact rational / 80-bit costs) and against 36 perturbed and random competitors per case, reproduction of the generator, equivariance under similarity motions and permutation, refusals.",
     design_ref="5/C03", technique="property-based testing (Hypothesis): independent algorithm (Horn) + optimality by competitor search + metamorphic equivariance",
     note="Sets with reference sigma2 <= max(1e-10, 1e-11 sigma1) may be refused or answered; costs get a float64 noise floor n (64 eps coord)^2."),
+ "C04": dict(
+    text="Seeded Hypothesis search over synchronized pairs (estimate = noisy similarity image of the reference, scale ratio 1e-2..1e2, both storage modes, pre-read views) x {rigid, similarity, scale-only, origin} x n: every pose after align() equals the reference application of the returned (r,t,s) in all three views, n restricts the fit (garbage beyond n changes nothing), reference untouched, RMSE not worse than before / Horn optimum / perturbed competitors, re-alignment is the identity, origin alignment maps first pose and keeps relative poses, and the matrix stored by ape()/rpe() maps the unaligned onto the stored estimate for all option combinations.",
+    design_ref="5/C04", technique="property-based testing (Hypothesis): reference application of returned parameters + optimality by competitor search + metamorphic idempotence",
+    note="Idempotence/parameter comparisons only when the reference singular-value gap ratio > 1e-3; fit comparisons in 80-bit precision with a float64 noise floor."),
 }
